@@ -21,9 +21,9 @@ TECHNIQUE = 'offline history checker over recorded operation sequences against f
 RULE = ('files: multi-chunk multi-segment model files (contiguous, interleaved, strings, timestamps) and DAQmx files; histories of 20-60 '
         'ops; non-trivial = history with >=2 live generators interleaved with >=1 random read; distinct = (file signature, op-kind sequence)')
 ASSUMPTIONS = ['a generator created at step k must deliver the same chunk sequence as one created on a fresh file']
-REQUIRED = ['family:staggered', 'family:very-long', 'chunks_inspected_after_advance', 'family:same-total', 'family:short-middle', 'family:scaled', 'family:long', 'ops', 'gen_next_checked', 'generators_drained', 'file_generators', 'channel_generators', 'family:model', 'family:daqmx']
+REQUIRED = ['kept_results_rechecked', 'scribbled_results', 'family:staggered', 'family:very-long', 'chunks_inspected_after_advance', 'family:same-total', 'family:short-middle', 'family:scaled', 'family:long', 'ops', 'gen_next_checked', 'generators_drained', 'file_generators', 'channel_generators', 'family:model', 'family:daqmx']
 N = {'quick': 8000, 'thorough': 400000}
-KINDS = ['index', 'slice', 'read', 'new_gen', 'next_chan', 'next_file', 'read_unscaled']
+KINDS = ['index', 'slice', 'read', 'new_gen', 'next_chan', 'next_file', 'read_unscaled']       # 'scribble' is not required in the pair matrix
 
 
 def gen_cases(tier, seed):
@@ -297,6 +297,18 @@ def run_case(case, ctx):
     live2 = False
     randread_between = False
 
+    scribbles = []   # arrays returned by slice/read ops that the 'caller' may overwrite later
+    kept = []        # (step, kind, array object, its image when it was returned): re-examined after the whole history
+
+    def keep(kind, arr):
+        if isinstance(arr, np.ndarray) and len(arr) and rng.random() < 0.3 and kind != 'read_unscaled':
+            scribbles.append(arr)
+        elif isinstance(arr, np.ndarray) and len(arr) and len(kept) < 80:
+            kept.append((len(history), kind, arr, C.image(arr)))
+        elif isinstance(arr, dict):
+            for v_ in arr.values():
+                keep(kind, v_)
+
     def record(kind, args, ok, detail=None):
         history.append((len(history), kind, args, stream.position(), ok))
         if not ok:
@@ -307,6 +319,8 @@ def run_case(case, ctx):
         for step in range(nops):
             live = [g for g in gens if not g['done']]
             choices = ['index', 'slice', 'read', 'new_gen', 'read_unscaled']
+            if scribbles:
+                choices.append('scribble')
             if any(g['kind'] == 'chan' for g in live):
                 choices += ['next_chan'] * 2
             if any(g['kind'] == 'file' for g in live):
@@ -322,6 +336,20 @@ def run_case(case, ctx):
             n = len(R)
             if len(live) >= 2 and kind in ('index', 'slice', 'read', 'read_unscaled'):
                 randread_between = True
+            if kind == 'scribble':
+                # the caller overwrites an array it was handed earlier: lazily read results are the caller's own copies,
+                # so nothing the library returns afterwards may change
+                arr = scribbles.pop(rng.randrange(len(scribbles)))
+                try:
+                    if arr.dtype.kind in 'iuf':
+                        arr[...] = 0
+                    elif arr.dtype.kind == 'b':
+                        arr[...] = ~arr
+                    ctx.count('scribbled_results')
+                except (ValueError, TypeError):
+                    pass          # read-only or structured: nothing to overwrite
+                history.append((len(history), 'scribble', None, stream.position(), True))
+                continue
             if kind == 'index':
                 if n == 0:
                     continue
@@ -333,11 +361,13 @@ def run_case(case, ctx):
                 a, b, c = (rng.choice([None] + list(range(-n - 1, n + 2))), rng.choice([None] + list(range(-n - 1, n + 2))),
                            rng.choice([None, 1, 2, -1, -2]))
                 got = ch[a:b:c]
+                keep(kind, got)
                 ok = C.img_equal(C.image(got), C.image_slice(Rimg, slice(a, b, c)))
                 record(kind, (key, a, b, c), ok, {'why': 'wrong-values', 'got': C.short(C.image(got)), 'want': C.short(C.image_slice(Rimg, slice(a, b, c)))})
             elif kind == 'read':
                 o, l = rng.randrange(0, n + 2), rng.choice([None, 0, 1, 2, rng.randrange(0, n + 2)])
                 got = ch.read_data(o, l)
+                keep(kind, got)
                 want = C.image_slice(Rimg, slice(o, None if l is None else o + l))
                 record(kind, (key, o, l), C.img_equal(C.image(got), want), {'why': 'wrong-values', 'got': C.short(C.image(got)), 'want': C.short(want)})
             elif kind == 'read_unscaled':
@@ -346,6 +376,7 @@ def run_case(case, ctx):
                     continue
                 o, l = rng.randrange(0, n + 1), rng.choice([None, 0, 1, 2, 3])
                 got = ch.read_data(o, l, scaled=False)
+                keep(kind, got)
                 sl_ = slice(o, None if l is None else o + l)
                 if isinstance(Uimg, dict):
                     okd = isinstance(got, dict) and set(got) == set(Uimg) and all(C.img_equal(C.image(got[k_]), C.image_slice(Uimg[k_], sl_)) for k_ in Uimg)
@@ -374,6 +405,13 @@ def run_case(case, ctx):
                 advance(ctx, g, fresh, fresh_file, chans, record, 'drain_' + g['kind'])
                 guard += 1
             ctx.count('generators_drained')
+        # ---- results handed out earlier still hold the values they held when they were returned
+        for (st, kd, arr, im0) in kept:
+            ctx.count('kept_results_rechecked')
+            if not C.img_equal(C.image(arr), im0):
+                ctx.violation('history/%s/earlier-result-changed-later' % kd, {'step': st, 'was': C.short(im0), 'now': C.short(C.image(arr)),
+                                                                               'history': history[max(0, st - 2):st + 10], 'file': desc})
+                break
     except contracts.ContractBroken as ex:
         ctx.violation('history/contract/%s' % util.exc_key(ex), {'history': history[-12:], 'file': desc})
     except Exception as ex:
